@@ -230,6 +230,23 @@ func gfirst[T any](s []T, d T) T {
 
 func gswap[A any, B any](a A, b B) (B, A) {
 	return b, a
+}
+
+func gzero[T any]() T {
+	var z T
+	return z
+}
+
+func gnew[T any](x T) *T {
+	p := new(T)
+	*p = x
+	return p
+}
+
+func gstore[T any](p *T, x T) T {
+	old := *p
+	*p = x
+	return old
 }`
 
 // genericCall wraps an expression of type t in a call of a generic helper.
